@@ -59,6 +59,9 @@ def dedup {α} [BEq α] : List α → List α
 
 def names (ms : List Model) : List String := ms.map (·.name)
 
+/-- `strings.ToLower` (ASCII), written so that the kernel can evaluate it on literals -/
+def lowerS (s : String) : String := String.ofList (s.toList.map Char.toLower)
+
 /-! ### MemoryModelRegistry -/
 
 structure Stats where
@@ -202,7 +205,7 @@ def removeFromIndex (idx : List (String × List String)) (k v : String) : List (
 def putModel (h : Heap) (st : Store) (o : UModel) : Heap × Store :=
   let (h', a) := h.alloc o
   let di := if o.digest != "" then addToIndex st.digestIndex o.digest o.id else st.digestIndex
-  let ni := o.aliases.foldl (fun ni al => addToIndex ni al.toLower o.id) st.nameIndex
+  let ni := o.aliases.foldl (fun ni al => addToIndex ni (lowerS al) o.id) st.nameIndex
   (h', { st with catalog := mput st.catalog o.id a, digestIndex := di, nameIndex := ni })
 
 /-- `CatalogStore.RemoveModel` -/
@@ -212,7 +215,7 @@ def removeModel (h : Heap) (st : Store) (id : String) : Store :=
   | some a =>
     let o := h.read a
     let di := if o.digest != "" then removeFromIndex st.digestIndex o.digest id else st.digestIndex
-    let ni := o.aliases.foldl (fun ni al => removeFromIndex ni al.toLower id) st.nameIndex
+    let ni := o.aliases.foldl (fun ni al => removeFromIndex ni (lowerS al) id) st.nameIndex
     { st with catalog := mdel st.catalog id, digestIndex := di, nameIndex := ni }
 
 /-- `CatalogStore.ResolveByName`: exact id, then first id of the lower-cased name index, then a scan of
@@ -222,12 +225,12 @@ def resolveByName (h : Heap) (st : Store) (n : String) : Option Addr :=
   | some a => some a
   | none =>
     let viaIndex : Option Addr :=
-      match mget st.nameIndex n.toLower with
+      match mget st.nameIndex (lowerS n) with
       | some (id0 :: _) => mget st.catalog id0
       | _ => none
     match viaIndex with
     | some a => some a
-    | none => (st.catalog.find? (fun p => (h.read p.2).aliases.any (fun al => al.toLower == n.toLower))).map (·.2)
+    | none => (st.catalog.find? (fun p => (h.read p.2).aliases.any (fun al => (lowerS al) == (lowerS n)))).map (·.2)
 
 /-- `CatalogStore.ResolveByDigest` -/
 def resolveByDigest (st : Store) (d : String) : List Addr :=
@@ -261,20 +264,20 @@ def canMergeByName (o : UModel) (m : Model) : Bool :=
 def processModel (h : Heap) (st : Store) (m : Model) (e : Url) : Heap × Store × String :=
   let byDigest : Option Addr := if m.digest != "" then (resolveByDigest st m.digest).head? else none
   match byDigest with
-  | some a => let (h', st') := mergeModel h st a m e; (h', st', (h.read a).id)
+  | some a => let r := mergeModel h st a m e; (r.1, r.2, (h.read a).id)
   | none =>
     let byName : Option Addr :=
       match resolveByName h st m.name with
       | some a => if canMergeByName (h.read a) m then some a else none
       | none => none
     match byName with
-    | some a => let (h', st') := mergeModel h st a m e; (h', st', (h.read a).id)
+    | some a => let r := mergeModel h st a m e; (r.1, r.2, (h.read a).id)
     | none =>
       let id := match mget st.catalog m.name with
         | some a => uniqueID m.name m.digest (h.read a).digest
         | none => m.name
-      let (h', st') := putModel h st { id := id, aliases := [m.name], digest := m.digest, sources := [⟨e, m.name⟩] }
-      (h', st', id)
+      let r := putModel h st { id := id, aliases := [m.name], digest := m.digest, sources := [⟨e, m.name⟩] }
+      (r.1, r.2, id)
 
 /-- `DefaultUnifier.removeModelFromEndpoint` -/
 def removeModelFromEndpoint (h : Heap) (st : Store) (id : String) (e : Url) : Heap × Store :=
@@ -288,16 +291,22 @@ def removeModelFromEndpoint (h : Heap) (st : Store) (id : String) (e : Url) : He
       let o' := { o with sources := srcs }
       putModel (h.write a o') st o'
 
+/-- the `for _, modelID := range oldModelIDs` loop of UnifyModels -/
+def removeOld (e : Url) (p : Heap × Store) (ids : List String) : Heap × Store :=
+  ids.foldl (fun (p : Heap × Store) id => removeModelFromEndpoint p.1 p.2 id e) p
+
+/-- one iteration of the `for _, modelInfo := range models` loop of UnifyModels (nil entries are skipped) -/
+def processOne (e : Url) (p : Heap × Store × List String) (m : Option Model) : Heap × Store × List String :=
+  match m with
+  | none => p
+  | some m => let r := processModel p.1 p.2.1 m e; (r.1, r.2.1, p.2.2 ++ [r.2.2])
+
 /-- `DefaultUnifier.UnifyModels`: returns the pointers `store.GetModel` hands out for the processed ids. -/
 def unifyModels (h : Heap) (st : Store) (ms : List (Option Model)) (e : Url) : Heap × Store × List Addr :=
-  let old := (mget st.endpointModels e).getD []
-  let (h1, st1) := old.foldl (fun (p : Heap × Store) id => removeModelFromEndpoint p.1 p.2 id e) (h, st)
-  let (h2, st2, ids) := ms.foldl (fun (p : Heap × Store × List String) m =>
-      match m with
-      | none => p
-      | some m => let (h', st', id) := processModel p.1 p.2.1 m e; (h', st', p.2.2 ++ [id])) (h1, st1, [])
-  let st3 := { st2 with endpointModels := mput st2.endpointModels e ids }
-  (h2, st3, ids.filterMap (fun id => mget st3.catalog id))
+  let p1 := removeOld e (h, st) ((mget st.endpointModels e).getD [])
+  let p2 := ms.foldl (processOne e) (p1.1, p1.2, [])
+  let st3 := { p2.2.1 with endpointModels := mput p2.2.1.endpointModels e p2.2.2 }
+  (p2.1, st3, p2.2.2.filterMap (fun id => mget st3.catalog id))
 
 /-! ### UnifiedMemoryModelRegistry -/
 
@@ -337,34 +346,39 @@ def groupById (h : Heap) (as : List Addr) : List (String × List Addr) :=
     | some l => g.map (fun p => if p.1 == id then (id, l ++ [a]) else p)
     | none => g ++ [(id, [a])]) []
 
+/-- one catalogue entry of `dropEndpointFromCatalogue` -/
+def dropOne (e : Url) (p : Heap × List (String × Addr)) (ent : String × Addr) : Heap × List (String × Addr) :=
+  let o := p.1.read ent.2
+  if o.sources.any (fun s => s.url == e) then
+    let srcs := o.sources.filter (fun s => !(s.url == e))
+    if srcs.isEmpty then (p.1, mdel p.2 ent.1)
+    else
+      let r := p.1.alloc { o with sources := srcs }
+      (r.1, p.2.map (fun q => if q.1 == ent.1 then (ent.1, r.2) else q))
+  else p
+
 /-- fixes/C10-unified-drop-stale-sources.patch, first half: before a listing of endpoint `e` is merged,
     `e` is taken out of every catalogue entry (as a copy; entries left without sources are deleted). -/
 def dropEndpointFromGlobal (h : Heap) (g : List (String × Addr)) (e : Url) : Heap × List (String × Addr) :=
-  g.foldl (fun (p : Heap × List (String × Addr)) (ent : String × Addr) =>
-    let o := p.1.read ent.2
-    if o.sources.any (fun s => s.url == e) then
-      let srcs := o.sources.filter (fun s => !(s.url == e))
-      if srcs.isEmpty then (p.1, mdel p.2 ent.1)
-      else
-        let (h', a) := p.1.alloc { o with sources := srcs }
-        (h', p.2.map (fun q => if q.1 == ent.1 then (ent.1, a) else q))
-    else p) (h, g)
+  g.foldl (dropOne e) (h, g)
+
+/-- the body of the `for id, group := range modelGroups` loop of unifyModelsAsync -/
+def mergeGroup (p : Heap × List (String × Addr)) (grp : String × List Addr) : Heap × List (String × Addr) :=
+  let members := grp.2 ++ (match mget p.2 grp.1 with | some a => [a] | none => [])
+  match members with
+  | [a] => (p.1, mput p.2 grp.1 a)                       -- MergeUnifiedModels returns models[0] itself
+  | _ =>
+    let r := p.1.alloc (mergeObjects (members.map p.1.read))
+    (r.1, mput p.2 grp.1 r.2)
 
 /-- `unifyModelsAsync` (one spawned goroutine, run to completion under `unificationMutex`). -/
 def runUnify (vs : Variants) (u : Unified) (t : Task) : Unified :=
-  let (h0, g0) := match vs.dropStale with
+  let p0 := match vs.dropStale with
     | .pinned => (u.heap, u.global)
     | .fixed  => dropEndpointFromGlobal u.heap u.global t.url
-  let (h1, st1, res) := unifyModels h0 u.store t.models t.url
-  let groups := groupById h1 res
-  let (h2, g2) := groups.foldl (fun (p : Heap × List (String × Addr)) (grp : String × List Addr) =>
-      let members := grp.2 ++ (match mget p.2 grp.1 with | some a => [a] | none => [])
-      match members with
-      | [a] => (p.1, mput p.2 grp.1 a)                       -- MergeUnifiedModels returns models[0] itself
-      | _ =>
-        let (h', a) := p.1.alloc (mergeObjects (members.map p.1.read))
-        (h', mput p.2 grp.1 a)) (h1, g0)
-  { u with heap := h2, store := st1, global := g2 }
+  let r1 := unifyModels p0.1 u.store t.models t.url
+  let p2 := (groupById r1.1 r1.2.2).foldl mergeGroup (r1.1, p0.2)
+  { u with heap := p2.1, store := r1.2.1, global := p2.2 }
 
 /-- run the `i`-th pending task (any `i`: the scheduler's choice). With the ordering fix the goroutine
     unifies the newest outstanding listing of its endpoint, or nothing if that has been taken already. -/
@@ -392,21 +406,24 @@ def removeSrc : List Src → Url → List Src
   | [], _ => []
   | s :: ss, e => if s.url == e then ss else s :: removeSrc ss e
 
-/-- `UnifiedMemoryModelRegistry.RemoveEndpoint`: base removal, then every catalogue entry is edited IN PLACE. -/
+/-- one catalogue entry of RemoveEndpoint's `globalUnified.Range`: edited IN PLACE -/
+def removeOne (e : Url) (p : Heap × List (String × Addr)) (ent : String × Addr) : Heap × List (String × Addr) :=
+  let o := p.1.read ent.2
+  if o.sources.any (fun s => s.url == e) then
+    let o' := { o with sources := removeSrc o.sources e }
+    let h' := p.1.write ent.2 o'
+    if o'.sources.isEmpty then (h', mdel p.2 ent.1) else (h', p.2)
+  else p
+
+/-- `UnifiedMemoryModelRegistry.RemoveEndpoint`: base removal, then every catalogue entry is edited in place. -/
 def Unified.removeEndpoint (vs : Variants) (u : Unified) (e : Url) : Unified :=
   let b := u.base.removeEndpoint e
   -- fixes/C10-unified-drop-stale-sources.patch, second half: tell the unifier the endpoint is gone
-  let (h0, st0) := match vs.dropStale with
+  let p0 : Heap × Store := match vs.dropStale with
     | .pinned => (u.heap, u.store)
-    | .fixed  => let (h', st', _) := unifyModels u.heap u.store [] e; (h', st')
-  let (h1, g1) := u.global.foldl (fun (p : Heap × List (String × Addr)) (ent : String × Addr) =>
-      let o := p.1.read ent.2
-      if o.sources.any (fun s => s.url == e) then
-        let o' := { o with sources := removeSrc o.sources e }
-        let h' := p.1.write ent.2 o'
-        if o'.sources.isEmpty then (h', mdel p.2 ent.1) else (h', p.2)
-      else p) (h0, u.global)
-  { u with base := b, heap := h1, store := st0, global := g1,
+    | .fixed  => let r := unifyModels u.heap u.store [] e; (r.1, r.2.1)
+  let p1 := u.global.foldl (removeOne e) (p0.1, u.global)
+  { u with base := b, heap := p1.1, store := p0.2, global := p1.2,
            latest := match vs.inOrder with | .pinned => u.latest | .fixed => mdel u.latest e }
 
 /-- `GetUnifiedModel`: catalogue entry by id, else the STORE's object by name / alias -/
